@@ -21,6 +21,7 @@ import (
 	"verif/checks/c15"
 	"verif/checks/c16"
 	"verif/checks/c18"
+	"verif/checks/c20race"
 	"verif/engine/core"
 	"verif/gen/keys"
 )
@@ -50,6 +51,10 @@ var checks = map[string]check{
 }
 
 func main() {
+	if len(os.Args) >= 2 && os.Args[1] == "racepass" {
+		c20race.Run()
+		return
+	}
 	if len(os.Args) < 3 || os.Args[1] != "run" {
 		fmt.Fprintln(os.Stderr, "usage: vcheck run <ID>")
 		os.Exit(2)
